@@ -384,3 +384,82 @@ Proof.
     try (rewrite dot_vopp_r in Hal; lra);
     try (rewrite dot_vopp_r; lra).
 Qed.
+
+(** * The final forms used by Properties/C18.v *)
+Open Scope nat_scope.
+
+Lemma numbering_table k a b c : k < 8 -> nth k corner_sides (Bottom, Bottom, Bottom) = (a, b, c) ->
+  forall c', c' < 8 -> (on_side a c' = true /\ on_side b c' = true /\ on_side c c' = true <-> c' = k).
+Proof.
+  intros Hk E c' Hc'. pose proof (corner_triple_ok_nth k Hk) as H. rewrite E in H.
+  unfold corner_triple_ok in H. rewrite forallb_forall in H.
+  specialize (H c' (proj1 (In_corners c') Hc')). apply eqb_prop in H. split.
+  - intros [H1 [H2 H3]]. rewrite H1, H2, H3 in H. simpl in H. symmetry in H. apply Nat.eqb_eq in H. exact H.
+  - intros ->. rewrite Nat.eqb_refl in H. apply andb_true_iff in H. destruct H as [H H3].
+    apply andb_true_iff in H. tauto.
+Qed.
+
+Lemma reorient_same_points (hull : list tri) (rank : side -> list nat) (gl : list nat) qs :
+  length hull = 12 ->
+  group_loop hull rank normals_order (seq 0 12) = Some qs ->
+  geometricb gl (quad_of qs) = true ->
+  reorient hull rank = Some gl /\ Permutation gl (seq 0 8).
+Proof.
+  intros Hlen Hg Hb. pose proof (geometricb_sound gl _ Hb) as HG.
+  assert (Hp : is_perm8 gl = true).
+  { unfold geometricb in Hb. apply andb_true_iff in Hb. tauto. }
+  split.
+  - unfold reorient. rewrite Hlen, Nat.eqb_refl. cbv beta iota delta [negb]. rewrite Hg.
+    rewrite (assemble_geometric _ _ HG). rewrite (map_nth_perm8 gl Hp). reflexivity.
+  - apply perm8_Permutation. exact Hp.
+Qed.
+
+Lemma numbering_independent (A : Type) (G : nat -> A) (pos1 pos2 : nat -> A) (g1 g2 : nat -> nat)
+      (Q1 Q2 : side -> list nat) :
+  geometric g1 Q1 -> geometric g2 Q2 ->
+  (forall c, c < 8 -> pos1 (g1 c) = G c) -> (forall c, c < 8 -> pos2 (g2 c) = G c) ->
+  option_map (map pos1) (assemble Q1) = Some (map G corners)
+  /\ option_map (map pos1) (assemble Q1) = option_map (map pos2) (assemble Q2).
+Proof.
+  intros H1 H2 P1 P2.
+  rewrite (assemble_geometric _ _ H1), (assemble_geometric _ _ H2). cbv [option_map].
+  assert (E1 : map pos1 (map g1 corners) = map G corners).
+  { rewrite map_map. apply map_ext_in. intros c Hc. apply P1. apply In_corners. exact Hc. }
+  assert (E2 : map pos2 (map g2 corners) = map G corners).
+  { rewrite map_map. apply map_ext_in. intros c Hc. apply P2. apply In_corners. exact Hc. }
+  rewrite E1, E2. split; reflexivity.
+Qed.
+
+Lemma geometric_id : geometric (fun c => c) (fun s => side_corners s).
+Proof.
+  split; [intros; assumption|]. intros s. split.
+  - apply nodupb_NoDup. destruct s; vm_compute; reflexivity.
+  - intros x. unfold side_corners. rewrite filter_In. split.
+    + intros [Hx Hon]. exists x. split; [apply In_corners; exact Hx|auto].
+    + intros [c [Hc [Hon E]]]. subst. split; [apply In_corners; exact Hc|exact Hon].
+Qed.
+
+Open Scope R_scope.
+
+Lemma right_handed_frame (observer ceiling center : vec) :
+  0 < norm2 (cross (vsub observer center) (vsub ceiling center)) ->
+  let N := frame_normal observer ceiling center in
+  orthoframe N
+  /\ triple (N Right) (N Back) (N Top) = 1
+  /\ dot (N Front) (vsub observer center) = norm (vsub observer center)
+  /\ 0 < dot (N Top) (vsub ceiling center).
+Proof.
+  intros Hgen N. split; [|split; [|split]].
+  - apply frame_orthoframe. exact Hgen.
+  - apply (frame_right_handed observer ceiling center Hgen).
+  - apply front_towards_observer. exact Hgen.
+  - apply top_towards_ceiling. exact Hgen.
+Qed.
+
+Lemma example_orthoframe :
+  orthoframe (fun s => match s with Front => (0, -1, 0) | Back => (0, 1, 0) | Top => (0, 0, 1) | Bottom => (0, 0, -1)
+                                    | Left => (-1, 0, 0) | Right => (1, 0, 0) end).
+Proof.
+  unfold orthoframe. split; [|split; [|split; [|split; [|split; [|split; [|split; [|split]]]]]]];
+    try (vec_simpl; ring); apply vec_eq; vec_simpl; ring.
+Qed.
